@@ -403,6 +403,7 @@ func init() {
 				}
 				if m.QoS > 0 && m.ID == 0 {
 					r.Props = append(r.Props, viol("C15", "id-zero", "identifier 0 used"))
+					r.Props = append(r.Props, viol("C05", "publish-id-zero", "the written QoS %d PUBLISH carries packet identifier 0, which MQTT-2.3.1-1 forbids: not a well-formed control packet (%x)", int(m.QoS), w))
 				}
 			}
 			return r
